@@ -503,6 +503,28 @@ def r08_11(chk, P):
                        f'`{F.s(e)[:70]}`: the time factor is not the caller\'s absolute time' if not bad else
                        f'`{F.s(e)[:70]}` multiplies the caller\'s absolute time by the rate of one link: in a chain whose links differ in '
                        'rate the product is not a position in the stream (the durations of the earlier links must be subtracted first)')
+        # the dual: samples are converted to time at a link's rate only when they are a count of that link
+        def is_running_total(e, depth=0):
+            nd = F.ex[F.strip_casts(e)]
+            while nd['k'] == 'paren':
+                nd = F.ex[F.strip_casts(nd['c'][0])]
+            if nd['k'] == 'ref' and nd['decl'].get('kind') == 'var':
+                if nd['decl'].get('id') in acc:
+                    return True
+                d = defs.get(nd['decl'].get('id'))
+                if d is not None and depth < 3:
+                    return is_running_total(d, depth + 1)
+            return False
+        for e in sorted(F.nodes('bin'), key=lambda x: F.ex[x].get('loc') or [0, 0]):
+            nd = F.ex[e]
+            if nd['op'] != '/' or not is_link_rate(nd['c'][1]):
+                continue
+            bad = is_running_total(nd['c'][0])
+            n += 1
+            chk.ob('R08.11', F.name, f'samples-to-time-is-link-relative@{F.loc(e)}', not bad, F.where(e),
+                   f'`{F.s(e)[:70]}`: the sample count divided by the link\'s rate is not a total run up over several links' if not bad else
+                   f'`{F.s(e)[:70]}` divides a sample count accumulated over the links by the rate of one link: in a chain whose links '
+                   'differ in rate the quotient is not the time at which that link starts, and the link search picks the wrong link')
     return n
 
 
@@ -566,6 +588,12 @@ def run(chk, P):
     typestate.c08(chk, P)
     r08_11(chk, P)
     chk.floor('R08.11', 1)
+    chk.rule('R08.16', 'a seek that failed in the callback can be repeated: _seek_helper changes the cached offset and the sync state only on '
+             'the path on which the seek callback succeeded (shared implementation with C12 R12.6), so the "already there" shortcut of '
+             'the next positioning never trusts an offset the source did not reach')
+    from rules import c12 as c12_
+    c12_.r12_6(common.Proxy(chk, 'R08.16'), P)
+    chk.floor('R08.16', 3)
     r08_12(chk, P, E)
     chk.floor('R08.12', 1)
     # R08.4a: the conversion of a target uses the set-up of the link it selected (shared implementation with C09 R09.4/R09.1)
